@@ -21,7 +21,7 @@ ID = "C15"
 LEVEL = "exploration"
 RULE = ("random pairs of sub-query conditions (depth<=2) over one P and one Q variable; connectives & and | (also mixed "
         "with a plain condition); sub-query kinds an(entity(x0,c)), an(entity(x1,c)), an(set_of([x0,x1],c)); positions "
-        "condition / comparison operand (an and the, also correlated with the enclosing query's variable, also over objects with value equality) / predicate-form argument; caching on and off. Non-trivial: the "
+        "condition / comparison operand (an and the, also inside the first alternative of a disjunction, also correlated with the enclosing query's variable, also over objects with value equality) / predicate-form argument / argument of a @predicate or of a rule's constructor while the enclosing conditions bind the sub-query's variable themselves; caching on and off. Non-trivial: the "
         "oracle result is neither empty nor the whole product. distinct by structural hash.")
 LEVEL_TEXT = ("Reference-model monitoring with a metamorphic twin: the composed query, the query with the sub-query's "
               "conditions written in place, and the plain-Python oracle must agree on the result set (compared by identity).")
@@ -37,14 +37,14 @@ def plan(tier, seed):
 
 def floors(tier):
     return {"distinct_nontrivial": 200, "cls:pos:cond": 500, "cls:pos:operand_an": 100, "cls:pos:operand_the": 30,
-            "cls:pos:argument": 100, "cls:pos:correlated_the": 100, "cls:pos:correlated_an": 100, "cls:pos:operand_value_eq": 100, "cls:conn:&": 150, "cls:conn:|": 150, "cls:sub:set": 100, "cls:sub:ent0": 100,
+            "cls:pos:argument": 100, "cls:pos:correlated_the": 100, "cls:pos:correlated_an": 100, "cls:pos:operand_value_eq": 100, "cls:pos:pred_arg_bound": 100, "cls:pos:ctor_arg_bound": 100, "cls:pos:operand_in_or": 100, "cls:conn:&": 150, "cls:conn:|": 150, "cls:sub:set": 100, "cls:sub:ent0": 100,
             "cls:sub:ent1": 100, "cls:with_plain": 100, "re:An@.*\\.enter": 1000}
 
 
 def gen_case(rng):
     world = D.random_world(rng, np_=(2, 4), nq=(2, 4))
     pos = rng.choice(["cond", "cond", "cond", "operand_an", "operand_the", "argument", "correlated_the", "correlated_an",
-                      "operand_value_eq"])
+                      "operand_value_eq", "pred_arg_bound", "ctor_arg_bound", "operand_in_or"])
     case = {"world": world, "pos": pos, "caching": rng.random() < 0.7}
     if pos in ("correlated_the", "correlated_an"):
         case["attr"] = rng.choice(["a", "b"])
@@ -66,6 +66,7 @@ def gen_case(rng):
         })
     else:
         case["c1"] = C.gen_cond(rng, ["P"], rng.randint(0, 2))
+        case["k0"], case["k"] = rng.randint(1, 3), rng.randint(0, 2)
     return case
 
 
@@ -97,6 +98,16 @@ def expected(case, world):
         # the compared operand ranges over COPIES of the objects (equal, not identical): ==, i.e. VALUE equality
         return [(f"copy{i}",) for i, e in enumerate(_copies(world)) if any(e == s_ for s_ in sols)]
     sols = [p for p in ps if C.holds(case["c1"], (p,))]
+    if case["pos"] == "operand_in_or":
+        # (x.p == an(entity(y, c1))) | (x.a == k0)
+        return [(m[id(q)],) for q in qs if any(q.p is p for p in sols) or q.a == case["k0"]]
+    if case["pos"] == "pred_arg_bound":
+        # y.a >= k0, f_gt(an(entity(y, c1)), k): the predicate's argument is the sub-query over the variable an earlier
+        # condition has bound already
+        return [(m[id(p)],) for p in sols if p.a >= case["k0"] and p.a > case["k"]]
+    if case["pos"] == "ctor_arg_bound":
+        # infer(entity(Q(p=an(entity(y, c1)), a=x.a), x.p == y)): one new Q per x whose p is a solution of the sub-query
+        return sorted({(m[id(q.p)], q.a) for q in qs if any(q.p is p for p in sols)})
     return [(m[id(q)],) for q in qs if any(q.p is p for p in sols)]
 
 
@@ -161,11 +172,25 @@ def run(case, world, caching, times=1, flattened=False):
                 else:
                     q = an(set_of([x], x == an(entity(y, C.build(case["c1"], [y], 0, False)))))
                 sel = [x]
+            elif case["pos"] == "pred_arg_bound":
+                y = let(D.P, ps)
+                if flattened:
+                    q = an(set_of([y], y.a >= case["k0"], C.build(case["c1"], [y], 0, False), D.f_gt(y, case["k"])))
+                else:
+                    sub = an(entity(y, C.build(case["c1"], [y], 0, False)))
+                    q = an(set_of([y], y.a >= case["k0"], D.f_gt(sub, case["k"])))
+                sel = [y]
+            elif case["pos"] == "ctor_arg_bound":
+                pass    # built in rule mode below
             else:
                 y = let(D.P, ps)
                 x = let(D.Q, qs)
-                if flattened:
+                if flattened and case["pos"] != "operand_in_or":
                     q = an(set_of([x], x.p == y, C.build(case["c1"], [y], 0, False)))
+                elif case["pos"] == "operand_in_or" and flattened:
+                    q = an(set_of([x], ((x.p == y) & C.build(case["c1"], [y], 0, False)) | (x.a == case["k0"])))
+                elif case["pos"] == "operand_in_or":
+                    q = an(set_of([x], (x.p == an(entity(y, C.build(case["c1"], [y], 0, False)))) | (x.a == case["k0"])))
                 elif case["pos"] == "operand_an":
                     q = an(set_of([x], x.p == an(entity(y, C.build(case["c1"], [y], 0, False)))))
                 elif case["pos"] == "operand_the":
@@ -176,6 +201,18 @@ def run(case, world, caching, times=1, flattened=False):
                     q = an(set_of([term]))
                     x = term
                 sel = [x]
+        if case["pos"] == "ctor_arg_bound":
+            from entity_query_language import infer
+            from entity_query_language.symbolic import rule_mode
+            with rule_mode():
+                y = let(D.P, ps)
+                x = let(D.Q, qs)
+                if flattened:
+                    q = infer(entity(D.Q(p=y, a=x.a), x.p == y, C.build(case["c1"], [y], 0, False)))
+                else:
+                    sub = an(entity(y, C.build(case["c1"], [y], 0, False)))
+                    q = infer(entity(D.Q(p=sub, a=x.a), x.p == y))
+            return [sorted({(H.lab(m, r.p), r.a) for r in q.evaluate()}) for _ in range(times)]
         out = []
         for _ in range(times):
             out.append([tuple(H.lab(m, r[s]) for s in sel) for r in q.evaluate()])
@@ -209,6 +246,8 @@ def check_case(case, ctx):
         total = len(world["P"]) * len(world["Q"])
     elif case["pos"] == "operand_value_eq":
         total = len(world["E"])
+    elif case["pos"] == "pred_arg_bound":
+        total = len(world["P"])
     else:
         total = len(world["Q"])
     if 0 < len(set(exp)) < total:
